@@ -456,8 +456,14 @@ func c12UnitVariants(c *wk.Ctx, from, to int) {
 			ask  func(d *schema.UnitsDefinition, s string) string
 		}
 		askers := []asker{
-			{"ParseInt", func(d *schema.UnitsDefinition, s string) string { v, err := d.ParseInt(s); return fmt.Sprint(v, err == nil) }},
-			{"ParseFloat", func(d *schema.UnitsDefinition, s string) string { v, err := d.ParseFloat(s); return fmt.Sprint(v, err == nil) }},
+			{"ParseInt", func(d *schema.UnitsDefinition, s string) string {
+				v, err := d.ParseInt(s)
+				return fmt.Sprint(v, err == nil)
+			}},
+			{"ParseFloat", func(d *schema.UnitsDefinition, s string) string {
+				v, err := d.ParseFloat(s)
+				return fmt.Sprint(v, err == nil)
+			}},
 			{"IntSchema.Unserialize", func(d *schema.UnitsDefinition, s string) string {
 				v, err := schema.NewIntSchema(nil, nil, d).Unserialize(s)
 				return fmt.Sprint(v, err == nil)
